@@ -285,7 +285,7 @@ structure Args where
   iat : Option Bytes
   deriving Repr, DecidableEq
 
-def Args.none : Args := ⟨Option.none, Option.none, Option.none, Option.none⟩
+def Args.empty : Args := ⟨none, none, none, none⟩
 
 inductive Outcome
   | ok (i : Ident)
@@ -317,12 +317,17 @@ def bridgeLine (cfg : Cfg) (i : Ident) : Bytes :=
   ascii "Bridge obfs4 <IP ADDRESS>:<PORT> <FINGERPRINT> cert=" ++ certOf cfg i
     ++ ascii " iat-mode=" ++ decimal i.iat ++ [10]
 
+/-- "The IAT mode should be independently configurable": the `iat-mode` argument, when given,
+    overrides the loaded / default value (`none` = malformed) -/
+def iatChoice (js : JS) (iatArg : Option Bytes) : Option Int :=
+  match iatArg with
+  | none => some js.iat
+  | some t => atoi t
+
 /-- IAT override, validation, bridge file, state file (`serverStateFromArgs` from the override
     on, and `serverStateFromJSONServerState`) -/
 def finish (cfg : Cfg) (pre : List Op) (js : JS) (iatArg : Option Bytes) : Result :=
-  match (match iatArg with
-         | none => some js.iat
-         | some t => atoi t) with
+  match iatChoice js iatArg with
   | none => ⟨pre, .err⟩
   | some iat =>
     let js' : JS := { js with iat := iat }
